@@ -437,8 +437,16 @@ class MyPyAstVisitor:
             elif isinstance(parent, Enum):
                 names = []
                 if hasattr(lvalue, "items"):
-                    for item in lvalue.items:
-                        names.append(item.name)
+                    # Starred targets "A, *B = ..." and nested targets "(A, B), C = ..." contain names too
+                    items = list(lvalue.items)
+                    while items:
+                        item = items.pop(0)
+                        if isinstance(item, mp_nodes.StarExpr):
+                            item = item.expr
+                        if hasattr(item, "items"):
+                            items = list(item.items) + items
+                        elif hasattr(item, "name"):
+                            names.append(item.name)
                 else:
                     if not hasattr(lvalue, "name"):
                         # Assignments like "d['key'] = 1" in the enum body do not define enum instances
